@@ -11,15 +11,15 @@ import (
 )
 
 type FuncReport struct {
-	Key        string
-	Spec       *FuncSpec
-	Obls       []*Obligation
-	Errors     []string
-	Assumed    map[string]bool
-	Paths      int
-	Returns    int
-	Vacuity    []*Obligation // must NOT be unsat
-	Bound      bool
+	Key     string
+	Spec    *FuncSpec
+	Obls    []*Obligation
+	Errors  []string
+	Assumed map[string]bool
+	Paths   int
+	Returns int
+	Vacuity []*Obligation // must NOT be unsat
+	Bound   bool
 }
 
 func (w *World) newExec(fn *ssa.Function, spec *FuncSpec, beh *Behavior) *Exec {
@@ -241,7 +241,7 @@ func (w *World) verifyBehavior(rep *FuncReport, fn *ssa.Function, spec *FuncSpec
 				}
 			}
 		}
-		if len(rep.Vacuity) < 6 {
+		if len(rep.Vacuity) < 48 {
 			rep.Vacuity = append(rep.Vacuity, &Obligation{Name: fmt.Sprintf("%s.vacuity[return %d]", base, x.returns), Kind: "vacuity-path",
 				Facts: append(append([]*Term(nil), x.gfacts...), st2.Facts...), Goal: TFalse, Theory: x.theory, Func: spec.Key, Behavior: beh.Name})
 		}
